@@ -22,7 +22,7 @@ def plan(tier):
                 for d in ((0, 1) if tier == 'thorough' else (0,)):
                     qs.append(q('tweakseq:%s:seq%d:%s' % (k, seq, 'dec' if d else 'enc'), 'forall key, tweaks, block: %s().setKey ; %s ; %sBlock == C library with only the key and the latest tweak (NULL = all-zero)' % (k, what, 'decrypt' if d else 'encrypt'),
                                 dict(base, OB_TWSEQ=1, SEQ=seq, DIR=d)))
-    for w, what in ((0, 'fresh key (zero tweak), encryptBlock'), (1, 'setTweak ; encryptBlock'), (2, 'setTweak ; swapModes ; encryptBlock == C decrypt schedule'), (3, 'setTweak ; swapModes twice ; setTweak(NULL) ; encryptBlock'), (4, 'setTweak ; decryptBlock == C decrypt schedule')):
+    for w, what in ((0, 'fresh key (zero tweak), encryptBlock'), (1, 'setTweak ; encryptBlock'), (2, 'setTweak ; swapModes ; encryptBlock == C decrypt schedule'), (3, 'setTweak ; swapModes twice ; setTweak(NULL) ; encryptBlock'), (4, 'setTweak ; decryptBlock == mantis_ecb_crypt on the same (encryption) schedule, as documented: the mode is chosen with swapModes')):
         qs.append(q('mantis8:%d' % w, 'forall key, tweak, block: Mantis8: %s, against mantis_* with rounds = 8' % what, {'K': 'Mantis8', 'FAMILY': 8, 'KEYLEN': 16, 'TWEAKED': 0, 'OB_MANTIS': 1, 'WHAT': w}))
     for (k, kl) in ((('Skinny128_128', 16),) if tier == 'quick' else (('Skinny128_128', 16), ('Skinny128_256', 32), ('Skinny128_384', 48))):
         for (n1, n2) in (((17, 20),) if tier == 'quick' else ((17, 20), (0, 33), (16, 16), (5, 44))):
